@@ -18,9 +18,9 @@ import (
 )
 
 func propExpand(t *rapid.T) {
-	which := rapid.SampledFrom([]int{256, 256, 512}).Draw(t, "hash")
+	which := gen.Sampled([]int{256, 256, 512}).Draw(t, "hash")
 	bIn := which / 8
-	n := rapid.SampledFrom([]int{1, 31, 32, 33, 48, 63, 64, 65, 96, 128, 255 * 32, 255*32 + 1, 255 * 64, 255*64 + 1, 65535, 65536}).Draw(t, "outlen")
+	n := gen.Sampled([]int{1, 31, 32, 33, 48, 63, 64, 65, 96, 128, 255 * 32, 255*32 + 1, 255 * 64, 255*64 + 1, 65535, 65536}).Draw(t, "outlen")
 	if rapid.Bool().Draw(t, "anylen") {
 		n = rapid.IntRange(1, 400).Draw(t, "outlen2")
 	}
